@@ -72,6 +72,21 @@ package rules
 // switch; P8 UpdateTrafficGate with if/else and a typed local; P9 Delete loop closing
 // event.Delete[name] (same pointer as the live one) instead of the loaded value.
 //
+// Robustness pass (behaviour-preserving refactorings /verif/preserving/C20/r1..r4, C11/r4, C13/r4 → all
+// exit 0; detection re-checked with mutants on top of r2/r3/r4, script /tmp/vw/C20/out/mutants8.py):
+//   - a wrapper may `defer` a named same-package function/method (also via a method value bound once
+//     to a local) instead of a literal: c20DeferKind analyses that function entered while panicking
+//     and accepts it iff every path calls recover() itself and returns normally (re-panic, a
+//     conditional recover or a missing defer are still violations; an unreadable function value is
+//     undecided);
+//   - the per-watcher copy loops may live in a closure, in applyConfig itself or in a same-package
+//     function that receives the three maps (buckets = the arguments, matched by parameter position);
+//   - the Delete/Create/Update loops of a handler may live in same-package helpers that receive the
+//     event or one of its maps; the handler is analysed with the relevant helpers interpreted in
+//     place (flow.Config.Inline), so order, lookup outcome and store/removal pairing are still
+//     decided on paths; live-map operations and wrapper calls are searched over the reach;
+//   - wrapper / sync.Map calls through a method value bound once to a local are resolved.
+//
 // Known not to be caught (not claimed): TrafficController.Create* for an already existing name;
 // dropping the watcher.filter test; Update loop before Create loop; anything inside a kind's own
 // Init/Inherit/Close.
@@ -79,7 +94,9 @@ package rules
 import (
 	"go/ast"
 	"go/types"
+	"strings"
 
+	"golang.org/x/tools/go/cfg"
 	"golang.org/x/tools/go/packages"
 
 	"verif/internal/core"
@@ -229,7 +246,7 @@ func c20Defs(f *flow.Func, root ast.Node, v *types.Var) []c20Def {
 // value came from.
 func c20Origin(f *flow.Func, v *types.Var) *types.Var {
 	for depth := 0; v != nil && depth < 4; depth++ {
-		defs := c20Defs(f, f.Node, v)
+		defs := c20Defs(f, c20DeclNodeOf(f, v), v)
 		if len(defs) != 1 || defs[0].rhs == nil {
 			return v
 		}
@@ -269,8 +286,8 @@ type c20Lookup struct {
 // c20SyncMapOp classifies a call as a sync.Map method call and returns the method name and the
 // receiver expression.
 func c20SyncMapOp(f *flow.Func, call *ast.CallExpr) (string, ast.Expr) {
-	fnObj, ok := f.Callee(call).(*types.Func)
-	if !ok || fnObj.Pkg() == nil || fnObj.Pkg().Path() != "sync" {
+	fnObj, recv := c20MethodCall(f, call)
+	if fnObj == nil || recv == nil || fnObj.Pkg() == nil || fnObj.Pkg().Path() != "sync" {
 		return "", nil
 	}
 	sig, _ := fnObj.Type().(*types.Signature)
@@ -285,11 +302,54 @@ func c20SyncMapOp(f *flow.Func, call *ast.CallExpr) (string, ast.Expr) {
 	if !ok || n.Obj().Name() != "Map" {
 		return "", nil
 	}
-	sel, ok := ast.Unparen(call.Fun).(*ast.SelectorExpr)
+	return fnObj.Name(), recv
+}
+
+// c20MethodCall resolves the method a call invokes and its receiver expression, also through a
+// method value bound once to a local (`closeIt := entity.CloseWithRecovery; closeIt()`).
+func c20MethodCall(f *flow.Func, call *ast.CallExpr) (*types.Func, ast.Expr) {
+	if fnObj, ok := f.Callee(call).(*types.Func); ok {
+		if sel, ok := ast.Unparen(call.Fun).(*ast.SelectorExpr); ok {
+			return fnObj, sel.X
+		}
+		return fnObj, nil
+	}
+	v := c20Var(f, call.Fun)
+	if v == nil {
+		return nil, nil
+	}
+	defs := c20Defs(f, c20DeclNodeOf(f, v), v)
+	if len(defs) != 1 || defs[0].rhs == nil {
+		return nil, nil
+	}
+	sel, ok := ast.Unparen(defs[0].rhs).(*ast.SelectorExpr)
 	if !ok {
+		return nil, nil
+	}
+	s := f.Info.Selections[sel]
+	if s == nil || s.Kind() != types.MethodVal {
+		return nil, nil
+	}
+	fnObj, _ := s.Obj().(*types.Func)
+	return fnObj, sel.X
+}
+
+// c20Wrapper classifies a call of a lifecycle wrapper ("init" | "inherit" | "close") and returns
+// the entity expression it is invoked on.
+func c20Wrapper(f *flow.Func, call *ast.CallExpr) (string, ast.Expr) {
+	fnObj, recv := c20MethodCall(f, call)
+	if fnObj == nil || recv == nil {
 		return "", nil
 	}
-	return fnObj.Name(), sel.X
+	switch strings.ReplaceAll(fnObj.FullName(), Mod, "") {
+	case c20WInit:
+		return "init", recv
+	case c20WInherit:
+		return "inherit", recv
+	case c20WClose:
+		return "close", recv
+	}
+	return "", nil
 }
 
 func c20Lookups(f *flow.Func, root ast.Node) []*c20Lookup {
@@ -479,9 +539,22 @@ func c20Recovery(c *core.Ctx) {
 			isSite[s] = true
 		}
 		const evCb, evCb2 = "ev:callback", "ev:callback-twice"
+		const evRecDefer, evOpaqueDefer = "ev:recovering-defer", "ev:opaque-defer"
 		res := analyze(c, f, flow.Config{
 			NoHavoc:  true,
 			MayPanic: func(call *ast.CallExpr, callee types.Object) bool { return isSite[call] },
+			OnNode: func(st *flow.State, n ast.Node) {
+				// `defer e.recoverFrom("Init")`: a deferred named function that calls recover()
+				// itself recovers exactly like a deferred literal (the engine only interprets literals)
+				if d, ok := n.(*ast.DeferStmt); ok {
+					switch c20DeferKind(c, f, w.fd, d) {
+					case "recovers":
+						st.Set(evRecDefer, flow.True)
+					case "opaque":
+						st.Set(evOpaqueDefer, flow.True)
+					}
+				}
+			},
 			OnCall: func(st *flow.State, call *ast.CallExpr, callee types.Object, deferred bool) {
 				if isSite[call] {
 					if st.Is(evCb, flow.True) {
@@ -532,8 +605,16 @@ func c20Recovery(c *core.Ctx) {
 		reach.report(c, "R-C20-1", declName(w.pkg, w.fd)+"|callback reached exactly once on every non-panicking path", w.fd,
 			sprintf("%d normally returning paths all invoke the object's %s exactly once", reach.n, what))
 		var bad c20Finding
+		var opaque *flow.Exit
 		for _, ex := range res.Exits {
 			bad.n++
+			if ex.Kind == flow.ExitPanic && ex.State.Is(evRecDefer, flow.True) {
+				continue // recovered by the deferred named function
+			}
+			if ex.Kind == flow.ExitPanic && ex.State.Is(evOpaqueDefer, flow.True) {
+				opaque = ex
+				continue
+			}
 			if ex.Kind == flow.ExitPanic {
 				why := "a panic raised by the object's lifecycle callback leaves " + declName(w.pkg, w.fd) + " unrecovered: the caller's loop over the snapshot's objects is aborted (and the supervisor goroutine dies), so the other objects of the same snapshot are not reconciled"
 				if call, ok := ex.At.(*ast.CallExpr); ok && !isSite[call] {
@@ -541,6 +622,11 @@ func c20Recovery(c *core.Ctx) {
 				}
 				bad.fail(ex.State, ex.At, why)
 			}
+		}
+		if bad.why == "" && opaque != nil {
+			c.Undecide("R-C20-1", declName(w.pkg, w.fd)+"|panic of the callback is recovered", pos(c, w.fd),
+				"the wrapper defers a function value / a function outside the package that the rule cannot inspect for recover()")
+			continue
 		}
 		recovered := bad.report(c, "R-C20-1", declName(w.pkg, w.fd)+"|panic of the callback is recovered", w.fd,
 			sprintf("%d exits (normal and panicking callback) all end in a normal return after the deferred recover", bad.n))
@@ -606,4 +692,107 @@ func c20IsParam(f *flow.Func, fd *ast.FuncDecl, v *types.Var) bool {
 		}
 	}
 	return false
+}
+
+// c20DeferKind classifies a defer statement of a wrapper: "lit" (function literal, interpreted by
+// the engine), "recovers" (a named same-package function/method — also through a method value bound
+// once to a local — every path of which, entered while panicking, calls recover() itself and
+// returns normally), "norecover" (a named function the rule can read that does not), "opaque".
+func c20DeferKind(c *core.Ctx, f *flow.Func, fd *ast.FuncDecl, d *ast.DeferStmt) string {
+	fun := ast.Unparen(d.Call.Fun)
+	if _, ok := fun.(*ast.FuncLit); ok {
+		return "lit"
+	}
+	fnObj, _ := f.Callee(d.Call).(*types.Func)
+	if fnObj == nil {
+		// method value / function bound once to a local: rec := e.recoverFrom; defer rec("Init")
+		if v := c20Var(f, fun); v != nil {
+			if defs := c20Defs(f, fd, v); len(defs) == 1 && defs[0].rhs != nil {
+				switch r := ast.Unparen(defs[0].rhs).(type) {
+				case *ast.SelectorExpr:
+					fnObj, _ = f.Info.Uses[r.Sel].(*types.Func)
+				case *ast.Ident:
+					fnObj, _ = f.Info.Uses[r].(*types.Func)
+				case *ast.FuncLit:
+					return "opaque"
+				}
+			}
+		}
+	}
+	if fnObj == nil {
+		return "opaque"
+	}
+	if fnObj.Pkg() == nil || fnObj.Pkg() != f.Pkg.Types {
+		if fnObj.Pkg() != nil && fnObj.Pkg().Path() == "sync" {
+			return "norecover" // mutex unlocks and the like
+		}
+		return "opaque"
+	}
+	decl := declOf(f.Pkg, fnObj)
+	if decl == nil {
+		return "opaque"
+	}
+	g := flow.NewFunc(f.Pkg, decl)
+	entered := false
+	res, err := flow.Analyze(g, flow.Config{NoHavoc: true, OnBlock: func(st *flow.State, b *cfg.Block) {
+		if b.Index == 0 && !st.Is("ev:entered", flow.True) {
+			st.Set("ev:entered", flow.True)
+			st.Set(flow.Panicking, flow.True)
+			entered = true
+		}
+	}})
+	if err != nil || res == nil || !entered || len(res.Exits) == 0 {
+		return "opaque"
+	}
+	c.Count("functions_analysed", 1)
+	for _, ex := range res.Exits {
+		if ex.Kind != flow.ExitReturn || !ex.State.Is(flow.Recovered, flow.True) {
+			return "norecover"
+		}
+	}
+	return "recovers"
+}
+
+// c20DeclNodeOf returns the function declaration of f's package in which the local v is declared
+// (f.Node when it is not found): code moved into a same-package helper is searched there.
+func c20DeclNodeOf(f *flow.Func, v *types.Var) ast.Node {
+	if v != nil && f.Node != nil && (v.Pos() < f.Node.Pos() || v.Pos() > f.Node.End()) {
+		for _, file := range f.Pkg.Syntax {
+			if v.Pos() < file.Pos() || v.Pos() > file.End() {
+				continue
+			}
+			for _, d := range file.Decls {
+				if fd, ok := d.(*ast.FuncDecl); ok && fd.Pos() <= v.Pos() && v.Pos() <= fd.End() {
+					return fd
+				}
+			}
+		}
+	}
+	return f.Node
+}
+
+// c20Reach is reach(f, depth) without the lifecycle wrappers themselves (they are modelled as
+// events, never searched or interpreted in place) and returns their objects for inlineSamePkg's
+// except list.
+func c20Reach(f *flow.Func, depth int) ([]*flow.Func, []types.Object) {
+	var out []*flow.Func
+	var wrappers []types.Object
+	seen := map[types.Object]bool{}
+	for _, g := range reach(f, depth) {
+		if fd, ok := g.Node.(*ast.FuncDecl); ok && g.Body != f.Body {
+			o := g.Info.Defs[fd.Name]
+			if fo, ok := o.(*types.Func); ok {
+				full := strings.ReplaceAll(fo.FullName(), Mod, "")
+				if full == c20WInit || full == c20WInherit || full == c20WClose {
+					if !seen[o] {
+						seen[o] = true
+						wrappers = append(wrappers, o)
+					}
+					continue
+				}
+			}
+		}
+		out = append(out, g)
+	}
+	return out, wrappers
 }
